@@ -428,11 +428,15 @@ impl File {
             };
             let width = self.widths[char_dimens.width_index.get() as usize].0;
             // TODO: adjust based on the design units
-            let width = width + (c as i32 + 4) * 0o20_000_000;
+            // "This should be positive" (PLtoTF.2014.134), but it is not for widths
+            // that are not less than 16 in magnitude, so the arithmetic is done in
+            // 64 bits with a non-negative remainder.
+            let width = (width as i64) + (c as i64 + 4) * 0o20_000_000;
             let add = |b: u8, m: u8| -> u8 {
-                (((b as i32) + (b as i32) + width) % (m as i32))
+                ((b as i64) + (b as i64) + width)
+                    .rem_euclid(m as i64)
                     .try_into()
-                    .expect("(i32 % u8) is always a u8")
+                    .expect("0 <= (i64).rem_euclid(u8) < u8::MAX")
             };
             b = [
                 add(b[0], 255),
